@@ -172,13 +172,13 @@ func genSci(c *core.Ctx) {
 				return
 			}
 			sc := &sciCase{Kind: "sci", Declared: d, Supplied: sup}
-			fails := runSci(sc)
+			fails := pSci(sc)
 			c.OracleCheck()
 			c.Evaluated(1)
 			c.Count("sci")
 			for _, f := range fails {
 				c.OracleFail(f.key, f.desc, sc)
-				if f.key == "alloc" || f.key == "panic" {
+				if f.key == "alloc" || f.key == "panic" || f.key == "crash" {
 					poisoned["sci"] = true
 				}
 			}
